@@ -58,7 +58,7 @@ def gen_spec(rng):
         variants.append({"style": style, "fields": fs})
     spec = {"kind": kind, "variants": variants, "traits": traits, "raw": raw, "gen": gen_kind,
             "entry": rng.choice(["attr", "derive"]), "type_attr": rng.choice(["", "", "#[repr(C)]", "#[non_exhaustive]"]),
-            "where": rng.random() < 0.3, "gdefault": rng.random() < 0.3, "unsized": False}
+            "where": rng.random() < 0.3, "gdefault": rng.random() < 0.3, "unsized": False, "disc": rng.random() < 0.5}
     if kind == "enum":
         if "Default" in traits:
             units = [i for i, v in enumerate(variants) if v["style"] == "unit"]
@@ -166,9 +166,12 @@ def type_text(spec, which):
             return head + f"pub struct {tn}{gd}{wh} {b}"
         return head + f"pub struct {tn}{gd}{b}{wh};"
     vs = []
+    # explicit discriminants (only on field-less enums, and never together with PartialOrd / Ord: the property exempts those)
+    disc = spec.get("disc") and all(v["style"] == "unit" for v in spec["variants"]) and not any(t in spec["traits"] for t in ("PartialOrd", "Ord"))
     for vi, b in enumerate(bodies):
         m = "#[default] " if spec.get("dv") == vi else ""
-        vs.append(f"{m}{vname(spec, vi)}{b}")
+        d = f" = {(len(bodies) - vi) * 3}" if disc else ""
+        vs.append(f"{m}{vname(spec, vi)}{b}{d}")
     return head + f"pub enum {tn}{gd}{wh} {{ " + ", ".join(vs) + " }"
 
 
@@ -307,10 +310,13 @@ def feature_tags(spec):
 def core():
     specs = []
     base = {"raw": False, "gen": "none", "entry": "attr", "type_attr": "", "where": False, "gdefault": False, "unsized": False}
+    specs_disc = dict(base, kind="enum", disc=True, traits=["Clone", "Debug", "Default", "PartialEq", "Eq", "Hash"], dv=1, type_attr="#[repr(u8)]",
+                      variants=[{"style": "unit", "fields": []}, {"style": "unit", "fields": []}, {"style": "unit", "fields": []}])
     # the empty enum, every trait that std accepts on it
     for tr in (["Clone"], ["Debug"], ["PartialEq"], ["Clone", "Debug", "PartialEq", "Eq", "PartialOrd", "Ord", "Hash"]):
         for entry in ("attr", "derive"):
             specs.append(dict(base, kind="enum", variants=[], traits=tr, entry=entry))
+    specs.append(specs_disc)
     # raw identifiers
     specs.append(dict(base, kind="struct", raw=True, traits=list(ALL8), variants=[{"style": "named", "fields": ["u8", "string", "i32"]}]))
     specs.append(dict(base, kind="enum", raw=True, traits=list(ALL8), dv=0, entry="derive", variants=[
